@@ -140,8 +140,8 @@ type c10Rec struct {
 type c10App struct{ spec gen.ApplicationSpec }
 
 func (a *c10App) Load(node gen.Node, args ...any) (gen.ApplicationSpec, error) { return a.spec, nil }
-func (a *c10App) Start(mode gen.ApplicationMode)                                 {}
-func (a *c10App) Terminate(reason error)                                         {}
+func (a *c10App) Start(mode gen.ApplicationMode)                               {}
+func (a *c10App) Terminate(reason error)                                       {}
 
 func (c10) Run(e *simkit.Env, cc any) {
 	c := cc.(*C10Case)
